@@ -461,3 +461,38 @@ def uses_of(n: Node) -> set[str]:
                 out.add(x.target.id)
             stack.extend(ast.iter_child_nodes(x))
     return out
+
+
+def enumerate_paths(g: CFG, limit: int = 4000) -> list[tuple[list[tuple[str, bool]], Node, list[Node]]]:
+    """All acyclic entry->exit paths (normal edges only; loops taken at most once per head) as
+    ([(condition text, truth)], terminal return/raise node, visited statement nodes)."""
+    out: list[tuple[list[tuple[str, bool]], Node, list[Node]]] = []
+
+    def walk(nid: int, conds: list[tuple[str, bool]], seen: tuple[int, ...], visited: list[Node]) -> None:
+        if len(out) >= limit:
+            return
+        node = g.nodes[nid]
+        if node.kind in ("return", "raise"):
+            out.append((conds, node, visited))
+            return
+        if nid in (g.exit_return, g.exit_raise):
+            out.append((conds, node, visited))
+            return
+        if nid in seen:
+            return
+        seen = seen + (nid,)
+        normal = [b for b, k in g.succ[nid] if k == "n"]
+        if node.kind == "cond" and len(normal) == 2 and node.ast is not None:
+            txt = ast.unparse(node.ast)
+            walk(normal[0], conds + [(txt, True)], seen, visited)
+            walk(normal[1], conds + [(txt, False)], seen, visited)
+            return
+        if node.kind == "loop" and len(normal) == 2 and node.ast is not None:
+            walk(normal[0], conds + [("loop:" + node.label, True)], seen, visited)
+            walk(normal[1], conds + [("loop:" + node.label, False)], seen, visited)
+            return
+        for b in normal:
+            walk(b, conds, seen, visited + ([node] if node.kind == "stmt" else []))
+
+    walk(g.entry, [], (), [])
+    return out
